@@ -34,8 +34,13 @@ LEVEL_TEXT = (
     "every global a disjoint slot above the stack region and the initial memory read at a global's address is its initial "
     "value (zero beyond it); on every run the REAL data section of generated IR modules and C sources (int/short/char "
     "arrays, structs, strings, doubles; leading/trailing/middle zero bytes, all-zero, 1-byte, odd sizes) is rebuilt into "
-    "linear memory and compared with the IR initial bytes, with the model, and by executing loads on ppci's wasm runtime. NOT covered: translation of the straight-line code inside blocks (expressions, stack code, phis, "
-    "calls), wasm operand-stack validation, execution in a reference engine (none available: ppci's own wasm runtime is used "
+    "linear memory and compared with the IR initial bytes, with the model, and by executing loads on ppci's wasm runtime. "
+    "Third sliver (proof): with the module-wide slot dictionary of do_tree every function-address use emits the slot whose "
+    "element-segment entry is that function and two uses with the same slot name the same function (Model.FuncTable); on "
+    "every run the REAL element segment and the `i32.const slot` emitted at every LABEL use (captured by wrapping do_tree) of "
+    "C sources / IR modules with several functions taking addresses are checked for slot->function consistency, compared "
+    "with the model, and calls through pointers are executed on ppci's wasm runtime vs ir_to_python. NOT covered: translation of the straight-line code inside blocks (expressions, stack code, phis, "
+    "direct calls, call_indirect signature selection), wasm operand-stack validation, execution in a reference engine (none available: ppci's own wasm runtime is used "
     "only to replay failing inputs and to sanity-check the skeleton semantics). The validator is sound, not complete."
 )
 LEVEL_NOTE = (
@@ -54,6 +59,7 @@ TRUSTED = [
     "harness extraction of (CFG, shape, control skeleton) from the real objects (ir.Function, relooper shapes, wasm Instruction list)",
     "Model.Shape.exec as the meaning of block/loop/if/br (wasm spec label semantics, written by hand; cross-checked against ppci's own wasm runtime on every run)",
     "Model.DataSeg.applySeg as the meaning of an active data segment",
+    "an active element segment at offset o puts refs[k] at table slot o+k (wasm spec), read off components.Elem by the harness",
 ]
 ASSUMPTIONS = [
     "the emitted module passes wasm validation (operand-stack typing of blocks is not modelled; ppci asserts stack==0 at every construct boundary)",
@@ -1435,6 +1441,270 @@ def dataseg_check(ctx, n):
     return reqs, finish
 
 
+# ----------------------------------------------------------------------------------------------
+# third sliver: function-table slots
+# ----------------------------------------------------------------------------------------------
+FT_CORPUS = [
+    # two functions take addresses in different orders; a later function calls through a pointer installed earlier
+    """int inc(int x) { return x + 1; } int dbl(int x) { return x * 2; } int neg(int x) { return 0 - x; } int sqr(int x) { return x * x; }
+int add2(int x, int y) { return x + y + 2; }
+int (*handler)(int); int calls = 0;
+int apply(int (*f)(int), int v) { calls = calls + 1; return f(v); }
+int u0(int k, int v) { int (*f)(int); if (k == 0) f = inc; else if (k == 1) f = dbl; else f = neg; return apply(f, v); }
+int u1(int k, int v) { return apply(neg, apply(neg, v) + 1); }
+int u2(int k, int v) { return apply(sqr, v) + apply(inc, v); }
+int u3(int k, int v) { if (k) handler = sqr; else handler = dbl; return 0; }
+int u4(int k, int v) { return handler(v); }
+int u5(int k, int v) { int (*g)(int, int); g = add2; return g(v, k); }
+int u6(int k, int v) { return calls; }
+""",
+]
+
+
+def gen_c_funcptr(rng):
+    nt = rng.randint(3, 6)
+    lines = [f"int t{i}(int x) {{ return x * {i + 2} + {rng.randint(1, 9)}; }}" for i in range(nt)]
+    lines += [f"int w{i}(int x, int y) {{ return x * {i + 3} - y + {rng.randint(1, 9)}; }}" for i in range(2)]
+    lines.append("int (*handler)(int); int (*tab[3])(int); struct H { int tag; int (*fn)(int); } hs;")
+    lines.append("int apply(int (*f)(int), int v) { return f(v); }")
+    nu = rng.randint(3, 7)
+    installed = False
+    for u in range(nu):
+        a, b, c = (rng.randrange(nt) for _ in range(3))
+        k = rng.random()
+        if u == 0 or (k < 0.2):
+            body = f"if (k) handler = t{a}; else handler = t{b}; return 0;"
+            installed = True
+        elif k < 0.4:
+            body = f"int (*f)(int); if (k == 0) f = t{a}; else f = t{b}; return f(v);"
+        elif k < 0.55:
+            body = f"return apply(t{a}, v) + apply(t{b}, v + 1);"
+        elif k < 0.68 and installed:
+            body = "return handler(v);"
+        elif k < 0.8:
+            body = f"tab[0] = t{a}; tab[1] = t{b}; tab[2] = t{c}; if (k < 0 || k > 2) k = 0; return tab[k](v);"
+        elif k < 0.9:
+            body = f"hs.fn = t{a}; hs.tag = k; return hs.fn(v) + hs.tag;"
+        else:
+            body = f"int (*g)(int, int); g = w{rng.randrange(2)}; return g(v, k);"
+        lines.append(f"int u{u}(int k, int v) {{ {body} }}")
+    return "\n".join(lines) + "\n"
+
+
+def ir_funcptr_module(rng):
+    """IR module built directly: targets t<i>(x) = x + c_i; users u<j>(v) store the address of one or two targets
+    into a global pointer and call through it"""
+    from ppci import ir
+    m = ir.Module("m")
+    gp = ir.Variable("gp", ir.Binding.GLOBAL, 4, 4)
+    m.add_variable(gp)
+    nt = rng.randint(2, 5)
+    targets = []
+    for i in range(nt):
+        f = ir.Function(f"t{i}", ir.Binding.GLOBAL, ir.i32)
+        m.add_function(f)
+        x = ir.Parameter("x", ir.i32)
+        f.add_parameter(x)
+        b = ir.Block("entry"); f.add_block(b); f.entry = b
+        c = ir.Const(100 * (i + 1), "c", ir.i32); b.add_instruction(c)
+        r = ir.Binop(x, "+", c, "r", ir.i32); b.add_instruction(r)
+        b.add_instruction(ir.Return(r))
+        targets.append(f)
+    want = {}
+    for j in range(rng.randint(2, 5)):
+        f = ir.Function(f"u{j}", ir.Binding.GLOBAL, ir.i32)
+        m.add_function(f)
+        v = ir.Parameter("v", ir.i32)
+        f.add_parameter(v)
+        b = ir.Block("entry"); f.add_block(b); f.entry = b
+        picks = [rng.randrange(nt) for _ in range(rng.randint(1, 2))]
+        for t in picks:
+            b.add_instruction(ir.Store(targets[t], gp))
+        ld = ir.Load(gp, "p", ir.ptr); b.add_instruction(ld)
+        call = ir.FunctionCall(ld, [v], "res", ir.i32); b.add_instruction(call)
+        b.add_instruction(ir.Return(call))
+        want[f"u{j}"] = 100 * (picks[-1] + 1)
+    return m, want
+
+
+def functable_capture(m):
+    """compile with the real compiler; return (comp, wasm, uses) where uses = [(in function, target, emitted slot)]"""
+    from ppci.wasm import ppci2wasm
+    comp = ppci2wasm.IrToWasmCompiler()
+    comp.prepare_compilation()
+    fnames = {f.name for f in m.functions}
+    uses, cur = [], [None]
+    orig_tree, orig_fn = comp.do_tree, comp.do_function
+
+    def do_tree(tree):
+        orig_tree(tree)
+        if tree.name == "LABEL" and tree.value in fnames:
+            last = comp.instructions[-1]
+            uses.append((cur[0], tree.value, last.args[0] if last.opcode == "i32.const" else None))
+
+    def do_function(f, wf):
+        cur[0] = f.name
+        orig_fn(f, wf)
+
+    comp.do_tree, comp.do_function = do_tree, do_function
+    with contextlib.redirect_stdout(io.StringIO()):
+        comp.compile(m)
+        wm = comp.create_wasm_module()
+    return comp, wm, uses
+
+
+def functable_property(ctx, origin, m, comp, wm, uses, case, batch):
+    """THE PROPERTY ON THE REAL OUTPUT: the element segment holds, at the slot emitted for every function-address
+    use, the function whose address is taken; the table is large enough.  Queues the Model.FuncTable comparison."""
+    from ppci.wasm import components
+    ctx.count("eval_functable")
+    ctx.count("programs")
+    by_index = {ref.index: name for name, ref in comp.function_refs.items()}
+    table = {}
+    for d in wm.definitions:
+        if isinstance(d, components.Elem):
+            if d.mode is None or d.mode[1][0].opcode != "i32.const":
+                ctx.fail("functable:unexpected-segment-form", "element segment is not active with an i32.const offset", case)
+                continue
+            off = d.mode[1][0].args[0]
+            for k, ref in enumerate(d.refs):
+                name = by_index.get(ref.index, (ref.name or "?").lstrip("$")) if ref.index is not None else (ref.name or "?").lstrip("$")
+                table[off + k] = name
+    sizes = [d.min for d in wm.definitions if isinstance(d, components.Table)]
+    if uses:
+        ctx.nontrivial(("functable", tuple((u[0], u[1]) for u in uses)))
+    bad = False
+    for (infn, target, slot) in uses:
+        ctx.count("eval_functable_use")
+        if slot is None:
+            ctx.fail("functable:no-slot-emitted", f"{origin}: no i32.const after LABEL {target} in {infn}", case)
+        elif table.get(slot) != target:
+            bad = True
+            ctx.fail("functable:slot-aliases-other-function",
+                     f"{origin}: function {infn} takes the address of {target} and emits slot {slot}, but the element segment "
+                     f"holds {table.get(slot)!r} there (table {[table[k] for k in sorted(table)]})",
+                     dict(case, **{"uses": uses, "table": [table[k] for k in sorted(table)]}))
+            break
+        elif sizes and slot >= sizes[0]:
+            ctx.fail("functable:slot-outside-table", f"slot {slot} >= table size {sizes[0]}", case)
+    # model: functions numbered by first appearance in the module's function list
+    ids = {f.name: i for i, f in enumerate(m.functions)}
+    groups, order = [], []
+    for (infn, target, slot) in uses:
+        if not order or order[-1] != infn:
+            order.append(infn)
+            groups.append([])
+        groups[-1].append(ids[target])
+    reqs, impls, cases = batch
+    reqs.append("ft " + " / ".join(" ".join(map(str, g)) for g in groups))
+    impls.append("ok table=[" + ",".join(str(ids.get(table[k], -1)) for k in sorted(table)) + "] slots=["
+                 + ",".join(str(u[2]) for u in uses) + "]")
+    cases.append(case)
+    return bad
+
+
+def functable_check(ctx, n):
+    from ppci import api
+    from ppci.common import CompilerError
+    from ppci.wasm import instantiate
+    from ppci.lang.python import ir_to_python
+    batch = ([], [], [])
+
+    def call(fn, *a):
+        try:
+            with time_limit(5):
+                return fn(*a)
+        except Exception as e:  # noqa
+            return "exc:" + type(e).__name__
+
+    def sides(m, wm):
+        inst = instantiate(wm, target="python")
+        f = io.StringIO()
+        ir_to_python([m], f)
+        ns = {}
+        exec(f.getvalue(), ns)
+        return inst, ns
+
+    # (a) C sources, -O0 and -O2
+    srcs = list(FT_CORPUS) + [gen_c_funcptr(ctx.rng) for _ in range(n)]
+    for src in srcs:
+        for opt in (0, 2):
+            try:
+                with contextlib.redirect_stdout(io.StringIO()):
+                    m = api.c_to_ir(io.StringIO(src), "arm")
+                    if opt:
+                        api.optimize(m, level=opt)
+            except CompilerError:
+                ctx.count("functable_c_frontend_rejects")
+                continue
+            except Exception as e:  # noqa
+                ctx.count("optimizer_crash_" + type(e).__name__)
+                continue
+            case = {"origin": f"c-funcptr:O{opt}", "source": src}
+            try:
+                comp, wm, uses = functable_capture(m)
+            except Exception as e:  # noqa
+                ctx.count("functable_refusal_" + type(e).__name__)
+                continue
+            functable_property(ctx, case["origin"], m, comp, wm, uses, case, batch)
+            try:
+                inst, ns = sides(m, wm)
+            except Exception as e:  # noqa
+                ctx.count("functable_exec_setup_error_" + type(e).__name__)
+                continue
+            users = sorted(f.name for f in m.functions if f.name.startswith("u"))
+            script = [(u, k, ctx.rng.randint(-50, 50)) for u in users for k in (1, 0)]
+            script += [(ctx.rng.choice(users), ctx.rng.randint(0, 2), ctx.rng.randint(-50, 50)) for _ in range(12)]
+            for (u, k, v) in script:
+                r_ir = call(ns[u], k, v)
+                r_w = call(getattr(inst.exports, u), k, v)
+                ctx.count("eval_functable_call")
+                if isinstance(r_ir, str):
+                    ctx.count("functable_reference_" + r_ir)
+                    break
+                if r_w != r_ir:
+                    ctx.fail("functable:call-differs",
+                             f"{u}({k},{v}) returns {r_w} on ppci's wasm runtime but {r_ir} under ir_to_python "
+                             f"(call through a function pointer)", dict(case, **{"call": [u, k, v]}))
+                    break
+    # (b) IR modules built directly
+    for _ in range(n):
+        m, want = ir_funcptr_module(ctx.rng)
+        case = {"origin": "ir-funcptr", "users": want}
+        try:
+            comp, wm, uses = functable_capture(m)
+        except Exception as e:  # noqa
+            ctx.count("functable_refusal_" + type(e).__name__)
+            continue
+        functable_property(ctx, "ir-funcptr", m, comp, wm, uses, case, batch)
+        try:
+            inst, ns = sides(m, wm)
+        except Exception as e:  # noqa
+            ctx.count("functable_exec_setup_error_" + type(e).__name__)
+            continue
+        for u, add in want.items():
+            v = ctx.rng.randint(-50, 50)
+            r_w = call(getattr(inst.exports, u), v)
+            r_ir = call(ns[u], v)
+            ctx.count("eval_functable_call")
+            if not isinstance(r_ir, str) and r_ir != v + add:
+                ctx.disagree("ir_to_python call through a stored function pointer vs the IR meaning", dict(case, call=[u, v]), r_ir, v + add)
+            if r_w != v + add:
+                ctx.fail("functable:call-differs", f"{u}({v}) returns {r_w} on ppci's wasm runtime, the IR calls a target "
+                                                   f"returning {v + add} (ir_to_python: {r_ir})", dict(case, call=[u, v]))
+                break
+    reqs, impls, cases = batch
+
+    def finish(out):
+        for rq, i, o, cs in zip(reqs, impls, out, cases):
+            if i != o:
+                ctx.disagree("FuncTable model", {"request": rq, **cs}, i, o)
+        if reqs:
+            ctx.sample({"functable_request": reqs[0], "impl": impls[0], "model": out[0]})
+
+    return reqs, finish
+
+
 def check(ctx):
     import logging
     import sys
@@ -1491,7 +1761,15 @@ def check(ctx):
     # 7. data segments (second sliver); its driver requests ride along with the validation batch
     ds = dataseg_check(ctx, 200 if ctx.thorough else 25)
     lap("dataseg")
-    handle_cases(ctx, cases, extra=ds)
+    # 8. function-table slots (third sliver)
+    ft = functable_check(ctx, 60 if ctx.thorough else 8)
+    lap("functable")
+    nds = len(ds[0])
+
+    def finish_both(out):
+        ds[1](out[:nds])
+        ft[1](out[nds:])
+    handle_cases(ctx, cases, extra=(ds[0] + ft[0], finish_both))
     lap("validate+search+replay")
     c_exec(ctx, cases, 120 if ctx.thorough else 15)
     lap("c_exec")
